@@ -10,7 +10,7 @@ from ..core import case_seed
 
 PID = 'C15'
 TAU = Fraction(1, 10 ** 10)
-RULE = ('exhaustive enumeration of (N,d) with N<=Nmax, d<=dmax and C(N+d-1,d)<=bound, plus high degrees d in 11..18 for N<=2 (tolerance growing with d); for each pair every (i,alpha) '
+RULE = ('exhaustive enumeration of (N,d) with N<=Nmax, d<=dmax and C(N+d-1,d)<=bound, plus high degrees d in 11..18 for N<=2 (tolerance growing with d) and many variables N in 9..33 at d<=3; every request preceded by a failing (raising) call that is caught; for each pair every (i,alpha) '
         'identity sum_j Gamma[i,j]*ray_j^alpha = delta(i,alpha) is evaluated in exact integer arithmetic from the returned '
         'floats (tolerance 1e-10 * sum_j |Gamma[i,j]| ray_j^alpha); the multi-index list is compared with an independent '
         'itertools enumeration; increment() traces and binomial/factorial/pow/pos helpers against exact references; '
@@ -20,8 +20,8 @@ BOUNDS = {'quick': (6, 7, 60), 'thorough': (8, 10, 220)}
 EXHAUSTIVE = {'quick': True, 'thorough': True}
 
 
-HIGH = {'quick': [(1, 11), (2, 11), (1, 13), (2, 13), (1, 16), (2, 16)],
-        'thorough': [(N, d) for N in (1, 2) for d in range(11, 19)] + [(3, 11), (3, 12)]}
+HIGH = {'quick': [(1, 11), (2, 11), (1, 13), (2, 13), (1, 16), (2, 16), (9, 2), (10, 2), (12, 1), (17, 1)],
+        'thorough': [(N, d) for N in (1, 2) for d in range(11, 19)] + [(3, 11), (3, 12), (9, 2), (10, 2), (12, 2), (17, 2), (9, 3), (33, 1)]}
 
 
 def pairs(tier):
@@ -72,18 +72,35 @@ def _gamma(ctx, N, d):
                                                     'duplicates': len(got) - len(set(got))})
         return
     ctx.ok('multi_indices', ('mi', N, d))
+    # a failed call in between (mismatched arguments, an interrupt) must leave nothing behind: provoke and catch one
+    try:
+        EI.gamma([d] + [0] * (N - 1), ([d] + [0] * (N - 1))[:max(0, N - 1)])          # i with N entries, j one short: raises inside the summation
+    except Exception:
+        pass
+    try:
+        EI.multi_index_binomial(np.ones(N + 1), np.ones(max(1, N - 1)))
+    except Exception:
+        pass
     g1, r1 = EI.generate_Gamma_and_rays(N, d)
+    first = (np.array(g1, copy=True), np.array(r1, copy=True))
     if isinstance(g1, np.ndarray) and isinstance(r1, np.ndarray) and g1.flags.writeable and r1.flags.writeable:
         g1 *= 3.0; r1 += 1.0            # what a caller may do with its own result; must not influence the next request
     Gamma, rays = EI.generate_Gamma_and_rays(N, d)
     Gamma = np.asarray(Gamma); rays = np.asarray(rays)
     NJ = len(want)
+    # the request right after the failed calls and the repeated one are both answers the property speaks about
+    if _identity(ctx, N, d, J, want, got, first[0], first[1], 'first-after-failed-calls'):
+        _identity(ctx, N, d, J, want, got, Gamma, rays, 'repeat-after-caller-mutation')
+
+
+def _identity(ctx, N, d, J, want, got, Gamma, rays, which):
+    NJ = len(want)
     if Gamma.shape != (NJ, NJ) or rays.shape != (NJ, N) or not np.array_equal(rays, np.asarray(J, dtype=float)):
-        ctx.violation('rays:shape-or-values', {'N': N, 'd': d, 'Gamma_shape': Gamma.shape, 'rays_shape': rays.shape})
-        return
-    ctx.ok('rays', ('rays', N, d))
+        ctx.violation('rays:shape-or-values', {'N': N, 'd': d, 'request': which, 'Gamma_shape': Gamma.shape, 'rays_shape': rays.shape})
+        return False
+    ctx.ok('rays', ('rays', N, d, which))
     if not np.all(np.isfinite(Gamma)):
-        ctx.violation('gamma_identity:nonfinite', {'N': N, 'd': d}); return
+        ctx.violation('gamma_identity:nonfinite', {'N': N, 'd': d, 'request': which}); return False
     # exact evaluation: floats are dyadic rationals -> scale to integers
     fr = [[Fraction(float(v)) for v in row] for row in Gamma]
     den = 1
@@ -104,15 +121,16 @@ def _gamma(ctx, N, d):
             scale = max(int(Sabs[i, a]), den)
             if Fraction(err) > tol(d) * scale:
                 ctx.violation('gamma_identity:%s' % ('diag' if i == a else 'offdiag'),
-                              {'N': N, 'd': d, 'i': got[i], 'alpha': got[a], 'sum': float(Fraction(int(S[i, a]), den)),
+                              {'N': N, 'd': d, 'request': which, 'i': got[i], 'alpha': got[a], 'sum': float(Fraction(int(S[i, a]), den)),
                                'want': 1.0 if i == a else 0.0})
-                return
+                return False
             q = Fraction(err, scale)
             if q > worst:
                 worst = q
     ctx.evaluations += NJ * NJ - 1
-    ctx.ok('gamma_identity', ('gamma', N, d), noise=float(worst),
+    ctx.ok('gamma_identity', ('gamma', N, d, which), noise=float(worst),
            sample={'N': N, 'd': d, 'multi_indices': NJ, 'identities_checked': NJ * NJ, 'max_err_over_scale': float(worst)})
+    return True
 
 
 def _helpers(ctx, N, d, rng):
